@@ -62,7 +62,7 @@ func globalPattern(l *Loaded, g *ssa.Global) (string, bool) {
 func c01r4(c *Ctx, r *Report) {
 	l := c.L
 	r.rule("C01-R4", "E (table agreement: placeholder vs. separator set)", "P1",
-		"parseTerms replaces `\\ ` by a placeholder before splitting the query into terms; the splitter's separator set (the language of its constant regexp, or of strings.Split's constant) does not contain that placeholder",
+		"the splitting of the query into terms respects `\\ `: where parseTerms replaces it by a placeholder before splitting, the splitter's separator set (the language of its constant regexp, or of strings.Split's constant) does not contain that placeholder; where the module has a splitter of its own, every term boundary inside its loop is decided on paths that tested the byte against the backslash",
 		"`foo\\ bar` is split into two AND-ed terms: escaped spaces change the meaning of the query")
 	pt := l.Fn("fzf", "parseTerms")
 	if pt == nil {
@@ -87,6 +87,66 @@ func c01r4(c *Ctx, r *Report) {
 			}
 		}
 	})
+	if placeholder == "" && splitCall == nil {
+		// no placeholder: a splitter of the module's own. It has to look at the escape before it looks at the
+		// space: every token boundary inside its loop is decided on paths that have tested the byte against '\\'.
+		var splitter *ssa.Function
+		eachInstr(pt, func(in ssa.Instruction) {
+			call, ok := in.(*ssa.Call)
+			if !ok || call.Common().StaticCallee() == nil || call.Common().StaticCallee().Pkg != pt.Pkg {
+				return
+			}
+			if sl, ok := call.Type().Underlying().(*types.Slice); ok {
+				if b, ok := sl.Elem().Underlying().(*types.Basic); ok && b.Kind() == types.String {
+					for v := range backwardSlice(call.Call.Args[0], nil, nil) {
+						if v == ssa.Value(pt.Params[3]) {
+							splitter = call.Common().StaticCallee()
+						}
+					}
+				}
+			}
+		})
+		if splitter == nil {
+			r.unest("fzf.parseTerms:tokenizer", pt.Pos(), pt, "the call that splits the query into terms", "not found")
+			return
+		}
+		pc := pathConds(splitter)
+		loops := natLoops(splitter)
+		nb := 0
+		eachInstr(splitter, func(in ssa.Instruction) {
+			call, ok := in.(*ssa.Call)
+			if !ok || calleeName(call.Common()) != "builtin.append" {
+				return
+			}
+			if sl, ok := call.Type().Underlying().(*types.Slice); !ok || !types.Identical(sl.Elem(), types.Typ[types.String]) {
+				return
+			}
+			inLoop := false
+			for _, lp := range loops {
+				if lp.body[in.Block()] {
+					inLoop = true
+				}
+			}
+			if !inLoop {
+				return
+			}
+			nb++
+			holds, _ := pc.Implies(in.Block(), func(lits []Lit) bool {
+				return hasLit(lits, func(a ssa.Value, v bool) bool {
+					b, ok := a.(*ssa.BinOp)
+					if !ok {
+						return false
+					}
+					k, isK := constIntVal(b.Y)
+					return isK && k == '\\' && (b.Op == token.EQL || b.Op == token.NEQ)
+				})
+			})
+			r.check(holds, fmt.Sprintf("%s:token boundary #%d is decided after the escape test", relName(splitter), nb), in.Pos(), splitter,
+				"a space ends a term only where the byte was first tested against the backslash of `\\ `", "a term boundary is reached without testing for the escape: `foo\\ bar` is split into two terms")
+		})
+		r.floor("token boundaries inside the splitter's loop", nb, 1)
+		return
+	}
 	if placeholder == "" || splitCall == nil {
 		r.unest("fzf.parseTerms:tokenizer", pt.Pos(), pt, "escaped-space placeholder and the call that splits the query", "not found")
 		return
